@@ -146,6 +146,9 @@ Idle(m)      == m.alive /\ m.stack = <<>> /\ m.out.k = "none"
 NumTrig(m)   == Cardinality({i \in DOMAIN m.stack : m.stack[i].k = "trig"})
 Raise(m, e)  == IF m.raising THEN m ELSE [m EXCEPT !.raising = TRUE, !.exc = e]
 
+\* open callbacks: [c, wait, got, sent, xto].  wait: "no" running | "pending" a nested trigger of its own machine runs |
+\* "ready" its nested send has returned | "xpending" it is inside a send to ANOTHER machine (slot xto) |
+\* "xready" that send has returned
 OpenOf(f, c)   == CHOOSE o \in f.open : o.c = c
 IsOpen(f, c)   == \E o \in f.open : o.c = c
 \* a callback may take a step only while every other started callback of the group is a
@@ -247,7 +250,7 @@ DoBeginCb(d, m, c) ==
     LET f == Top(m) IN
     SetTop([m EXCEPT !.ninv = @ + 1],
            [f EXCEPT !.pending = @ \ {c},
-                     !.open = @ \cup {[c |-> c, wait |-> "no", got |-> NoRes, sent |-> FALSE]},
+                     !.open = @ \cup {[c |-> c, wait |-> "no", got |-> NoRes, sent |-> FALSE, xto |-> 0]},
                      !.res = IF f.phase \in {"before", "on"} THEN Append(@, [c |-> c, v |-> "?"]) ELSE @])
 
 \* sm.send(ev) from inside callback c.  RTC: put, the try-acquire fails, the callback gets None
